@@ -248,6 +248,14 @@ def run(idx, rep, tier):
         rep.decide(ok, "contraction", "BlockDiag._matmat", "input blocks use the blocks' column sizes, output blocks their row sizes" if ok else
                    f"the operand is cut / arranged with sizes read from axes {sorted(map(str, in_axes))} of the blocks (required: columns, axis 1), the result with axes "
                    f"{sorted(map(str, out_axes))} (required: rows, axis 0)", detail="" if ok else "roles", locs=[idx.loc(m.module, m.node)])
+        # BLOCK: what is done with one block -- shapes for any multiplicity, the value (a TERM) for multiplicity one
+        from sa.blockeval import block_action
+        acts = block_action(idx, m, x)
+        # the outermost expressions only (an inner product chain is part of the outer one)
+        for ok_, text_, node_ in acts:
+            rep.decide(ok_, "block-action", "BlockDiag._matmat", text_, detail="" if ok_ is not False else "action", locs=[idx.loc(m.module, node_)])
+        if not acts:
+            rep.undecided("block-action", "BlockDiag._matmat", "no product with a block operator found")
     drm = base.methods.get("_rmatmat")
     if drm is not None:
         # the default left product transposes the linear map _matmat: the primal it is linearised at must have the shape of a forward
@@ -352,6 +360,7 @@ def run(idx, rep, tier):
     if not n_td:
         rep.note("to-dense: no operator class overrides to_dense with a value in the term grammar on this tree")
     rep.floor("no-narrowing-store", 2)
+    rep.floor("block-action", 1)
     rep.floor("result-dtype", 15)
     rep.floor("generic-path", 7)
     rep.floor("contraction", 4)
